@@ -26,7 +26,7 @@ func init() {
 		Rule: "exhaustive small scope: (a) every pattern over {a,b,*} (no adjacent wildcards) x every token over {a,b} up to the length bound through pattern.Search on an unordered provider and on an ordered single-block provider vs a DP glob matcher; " +
 			"(b) every range (all end pairs of a value set, open/closed/unbounded) x every token of the set vs the numeric-if-all-given-ends-numeric rule; " +
 			"(c) every sorted dictionary up to the size bound x every split into consecutive blocks -> real token.Table.SelectEntries(field, hint) -> ordered provider over the selected entries -> pattern.Search must equal the scan of all tokens; " +
-			"(d) seeded long strings and large dictionaries; (e) live: one real store per batch, one document per token of a seeded dictionary (every other batch large enough for several dictionary blocks), every pattern/range as a search on the field on the active and on the sealed fraction (block-loading provider) vs the DP matcher over the documents. case = one pattern/range (a,b) or one dictionary with all its splits and patterns (c); non-trivial = matches some but not all tokens; distinct = case identity",
+			"(d) seeded long strings and large dictionaries; (e) live: one real store per batch, one document per token of a seeded dictionary (every other batch large enough for several dictionary blocks), every pattern/range as a search on the field on the active, the sealed and the reloaded fraction (block-loading provider, token table read back from the index file) vs the DP matcher over the documents. case = one pattern/range (a,b) or one dictionary with all its splits and patterns (c); non-trivial = matches some but not all tokens; distinct = case identity",
 		Assumptions: []string{"the ordered provider used in (c) serves tokens straight from the dictionary; the block-loading provider of sealed fractions is exercised by part (e) and by C03 (multi-block dictionaries)"},
 		Batches:     tiered(128, 1024),
 		Run:         runC13,
@@ -331,7 +331,7 @@ func c13Live(w *h.W, batch int) {
 		}
 		return
 	}
-	defer st.Stop()
+	defer func() { st.Stop() }()
 	if err := st.Bulk(shuffled(r, docs)); err != nil {
 		if w.Begin(map[string]any{"part": "live", "step": "ingest"}) {
 			w.Violation("C13:bulk-error", map[string]any{"error": err.Error()})
@@ -370,9 +370,21 @@ func c13Live(w *h.W, batch int) {
 		q := &model.Q{Op: "range", Field: "k1", Lo: h.Pick(r, ends), Hi: h.Pick(r, ends), LoInc: r.Bool(), HiInc: r.Bool(), LoUnb: r.Chance(1, 6), HiUnb: r.Chance(1, 6)}
 		qs = append(qs, q)
 	}
-	for _, form := range []string{"active", "sealed"} {
-		if form == "sealed" {
+	for _, form := range []string{"active", "sealed", "reloaded"} {
+		switch form {
+		case "sealed":
 			st.SealAll()
+		case "reloaded":
+			// the token table is read back from the index file (not the one kept from sealing)
+			st.Stop()
+			st2, err := sdb.Open(st.Dir, sdb.Opt{Mapping: StoreMapping()})
+			if err != nil {
+				if w.Begin(map[string]any{"part": "live", "step": "reopen"}) {
+					w.Violation("C13:store-did-not-start", map[string]any{"error": err.Error()})
+				}
+				return
+			}
+			st = st2
 		}
 		for _, q := range qs {
 			text := q.SeqQL(r)
